@@ -2,6 +2,7 @@
    fails to compile if Props/C12.v is weakened, renamed or given other hypotheses. *)
 From Coq Require Import SpecFloat.
 Require Import Base Value Float PrintOptions ParseOptions Reader Scan Num Parser DatumProofs DepthProofs.
+Require Import ReaderProofs RoundtripProofs.
 Require Import Lexpr.Props.C12.
 
 Check (C12_four_ways :
@@ -13,6 +14,12 @@ Check (C12_histories :
   forall ro alpha fast std_parse fuel k inp cs,
   Forall (fun r => ~ call_fuel r) (run_history ro alpha fast std_parse fuel cs (init_state k inp)) ->
   Forall call_ok (run_history ro alpha fast std_parse fuel cs (init_state k inp))).
+
+Check (C12_concat_partial :
+  forall ryu alpha fast std_parse vs fuel n r D,
+  Forall (fun v => rt_ok alpha v /\ N.of_nat (rdepth v) < D) vs -> D <= 128 ->
+  (length (seq_txt ryu vs) + 16 + 1 <= fuel)%nat -> (length vs < n)%nat -> at_bytes r (seq_txt ryu vs) ->
+  iterate_values default_ro alpha fast std_parse fuel n (mkp r D) = map (fun v => POk v) vs).
 
 Check (C12_closer_consumed :
   let inp := bytes_events (s2b "1 2 ) 3") in
